@@ -444,7 +444,7 @@ FUNCS = {"cross_maps": cross_map_case, "long_circuits": long_circuit_case, "map_
 
 def op_alphabet(thorough):
     ops = []
-    P = list(PEXPR)
+    P = [x for x in PEXPR if thorough or x not in ("sum", "int+a")]    # quick: bound-variable parameters only in the dedicated operations at the end (each costs seconds in sympy)
     for k, q in (("RX", [0]), ("RZ", [1]), ("PHASE", [0]), ("CPHASE", [1, 0]), ("XX", [0, 2])):
         for p in (P if thorough or k in ("RX", "CPHASE") else P[::2]):
             ops.append({"k": k, "p": [p], "q": q})
@@ -476,9 +476,9 @@ def run(run):
     maps += [[x, y, z, "u"] for x, y, z in itertools.product(("u", "0.0"), repeat=3)][1:] + [[x, y, z, "u"] for x, y, z in itertools.product(("u", "S0"), repeat=3)][1:]
     maps += [[x, y, "u", "u"] for x in ("z", "zs") for y in ("u", "0.3", "z")] + [["u", "zs", "z", "u"], ["0.3", "z", "u", "u"]]
     ops = op_alphabet(thorough)
-    blk = 27
+    blk = 9     # small blocks, dealt one by one: the few slow operations (U3: sympy.simplify per evaluation; Sum / Integral parameters) spread over all workers
     cases = [{"op": o, "maps": maps[i:i + blk]} for o in ops for i in range(0, len(maps), blk)]
-    secs = [Section("operations", cases, op_case, horizon=600, chunk=2, desc="%d operations x all %d maps: parameters, matrices, free symbols, all splits" % (len(ops), len(maps)))]
+    secs = [Section("operations", cases, op_case, horizon=600, chunk=1, desc="%d operations x all %d maps: parameters, matrices, free symbols, all splits" % (len(ops), len(maps)))]
     R = [{"k": "T", "q": [0], "w": ["p3.0"]}, {"k": "T", "q": [0], "w": ["p0.5"]}, {"k": "RX", "p": ["0.5"], "q": [0], "w": ["exp"]}, {"k": "X", "q": [1, 0], "w": ["p2.0", "c1"]},
          {"k": "X", "q": [0], "w": ["exp", "dagger"]}, {"k": "T", "q": [1, 0], "w": ["exp", "c1"]}, {"k": "T", "q": [0], "w": ["dagger", "p2.0"]}]
     secs.append(Section("refusals", [{"op": o, "maps": [["u"] * 4, ["0.3", "u", "u", "u"], ["0.3", "e", "0.3", "0.3"]]} for o in R], refuse_case, desc="power/exp refuse binding with NotImplementedError, for every map incl. {}"))
